@@ -97,6 +97,13 @@ def group_roles(gfn):
     merged = [n for n in walk_no_nested(gfn) if isinstance(n, ast.Assign) and unparse(n.targets[0]) == r["ORDER"] and isinstance(n.value, ast.DictComp)
               and isinstance(n.value.value, ast.Tuple) and len(n.value.value.elts) == 2]
     if merged and r["FIELDS"] == "?":
+        # ... or taken apart at the lookup itself: `idx, member = table[t]`
+        for n in walk_no_nested(gfn):
+            if isinstance(n, ast.Assign) and isinstance(n.targets[0], ast.Tuple) and len(n.targets[0].elts) == 2 and all(isinstance(e, ast.Name) for e in n.targets[0].elts) \
+                    and isinstance(n.value, ast.Subscript) and unparse(n.value.value) == r["ORDER"]:
+                r["ORD"] = n.targets[0].elts[0].id
+                r["FIELDS"] = r["ORDER"]
+    if merged and r["FIELDS"] == "?":
         # one table {tag: (position, member)}: the entry local is looked up once and unpacked into (index, member)
         entry = ordg[0] if ordg else (ordv[0] if ordv else None)
         for n in walk_no_nested(gfn):
@@ -440,7 +447,14 @@ def _helper_assert_covered(repo, res, vg, vfn, q, assert_node):
         return all(len(c.args) > 1 and unparse(c.args[1]) in ("int", "float") for qq, c in res.call_sites(q))
     sites = res.call_sites(q)
     if not sites:
-        return False
+        # no call is visible: either nothing uses the helper any more, or it is reached through a name picked at run time
+        short_name = q.split(".")[-1]
+        mod = getattr(repo.func(q), "_module")
+        dyn = any((isinstance(x, ast.Constant) and x.value == short_name) or (isinstance(x, ast.Attribute) and x.attr == short_name and not isinstance(getattr(x, "_parent", None), ast.Call))
+                  for x in ast.walk(mod.tree))
+        if dyn:
+            raise AnalysisError(f"{q} is only referred to by name (a handler chosen at run time): its callers are not visible, the assert on message data cannot be decided")
+        return True
     for caller, call in sites:
         if caller not in (VALUE, "SchemaField._validate_value_monthyear"):
             return False
